@@ -14,34 +14,45 @@ import numpy as np
 from mc.run import Res, HarnessError, item_from_record
 
 ID = 'C12'
-RULE = ("Cartesian enumeration of field-domain tuples (1-3 fields; each domain an ORDERED selection of pairwise "
-        "!=-distinct pool elements, pool = 0, 1, True, 1.0, 'a', ('a',), (0,1), (0,'a'), frozenset({0}), None) "
-        "x every applicable table class; behind each item every key of the key alphabet is looked up: tuples of "
-        "per-field (element | ':') of every length, the same with one '...' replacing any (also empty) run of ':', "
-        "bare elements / ':' / '...', every nested chain (all compositions of the full key, 1-tuple steps, chains "
-        "through ':' and through list selections), every ordered sub-list of the outer domain, all 1- and 2-element "
-        "lists over the key pool that touch the domain, every pool element substituted at every position of every "
-        "full / prefix key (bare, in tuples and at the end of nested chains), over-long tuples, get(), "
-        "keys/items/values/len/iter, distribution interface of probability rows, action_dist. "
-        "states = distinct (class, constructor, domains) tables; transitions = key lookups (one chain = one lookup "
-        "per step) compared with the nested-dict reference.  Non-trivial = the table has a tuple element that is "
-        "also a valid field-wise full/prefix key or 1-tuple of an element, a tuple element in an inner field whose "
-        "members are elements of that field, or a domain element for which the pool holds an equal but "
-        "non-identical key (1/True/1.0).")
+RULE = ("Items are field-domain tuples (1-3 fields).  Each family listed in bounds.families is the FULL Cartesian "
+        "product, per field, of ALL ordered selections of the stated sizes of pairwise ==-distinct elements of the "
+        "stated sub-pool of the collision pool (0, 1, True, 1.0, 'a', ('a',), (0,1), (0,'a'), frozenset({0}), None); "
+        "every item is instantiated as every applicable class (Table, Table built from Field objects, "
+        "ProbabilityTable, StateTable / StateActionTable (from lists and from_dict), StateActionNextStateTable, "
+        "TabularPolicy).  Behind each table every key of the key alphabet is looked up: tuples of per-field "
+        "(element | ':') of every length, the same with one '...' replacing any (also empty) run of ':', bare "
+        "elements / ':' / '...', every nested chain (all compositions of every full key, 1-tuple steps, chains "
+        "through ':' / '...' and through list selections), every ordered sub-list of the outer domain, all 1-element "
+        "lists over the key pool and all 2-element lists over the pool that touch the domain, every pool element "
+        "substituted at every position of every full / prefix key (bare, in tuples, at the end of nested chains), "
+        "over-long tuples, unhashable keys, get(), keys/items/values/len/iter, the distribution interface of every "
+        "probability row (support, prob, items, probs, len, sample with a recording rng), action_dist.  The "
+        "constructor-variant classes (Field-built Table, from_dict) run the core part of the alphabet only. "
+        "states = distinct (class, constructor, domains) tables; transitions = single key lookups (a chain counts "
+        "one per step) compared with the nested-dict reference.  Non-trivial = the table has a tuple element in the "
+        "outer domain that is also a valid field-wise full/prefix key (or the 1-tuple of an element), a tuple "
+        "element in an inner field whose members are elements of that field or a key of the fields below, or a "
+        "domain element for which the pool holds an equal but non-identical key (1/True/1.0).")
 ASSUMPTIONS = [
     "domain elements come from the 10-element collision pool; domains have pairwise distinct elements under == "
-    "(Table validation demands it), sizes 1-3 (thorough: up to 4 for 1- and 2-field tables)",
+    "(Table validation demands it); sizes: quick 1-3 (size 3 for 2-3 fields only over collision sub-pools), thorough "
+    "1-4 (size 4 for 1-2 fields); the exact families are listed in coverage.bounds.families",
     "keys come from the pool plus equal-but-not-identical alternates (False, 0.0, (False, True), (0, 1.0), (0.0, 'a'), "
-    "frozenset({False})) and the foreign scalars 2 and 'b'; other key values are not covered",
-    "demanded: element keys, tuples of per-field element / full slice / one ellipsis, top-level lists of distinct outer "
-    "keys, top-level ':' and '...'; keys outside the domain must raise (StateActionIndexError when the indexed object "
-    "is a StateTable subclass, any exception otherwise); get(key, default) must equal t[key] for resolvable keys and "
-    "may either return the default or raise for foreign keys, never a cell",
-    "counted but not judged (statement silent): lists inside tuples, tuples of domain members used as a field "
+    "frozenset({False})), the always-foreign scalars 2 and 'b' and the unhashable {5}, {0: 1}; other key values are not covered",
+    "demanded (oracle): element keys, tuples of per-field element / full slice / one ellipsis, top-level lists of distinct "
+    "outer keys, top-level ':' and '...' -- with the precedence that a key which is an element of the outermost domain "
+    "(dict semantics: == and hash) selects that element; keys outside the domain (foreign scalar, tuple with a foreign "
+    "component, list with a foreign element, over-long tuple) must raise: StateActionIndexError when the indexed object is a "
+    "StateTable subclass, any exception (DomainError derives from BaseException) otherwise; get(key, default) must equal "
+    "t[key] for resolvable keys and may either return the default or raise for foreign keys, never a cell",
+    "counted but not judged (statement silent): a list inside a tuple, a tuple of domain members used as a field "
     "selector, lists with repeats, empty list / tuple, non-full slices, several ellipses, domaintuple keys, "
-    "prob(e) of tuple events that resolve field-wise, `in`",
-    "probability-table rows are row-normalised distinct primes (one zero entry in the last row) so every cell of a "
-    "table is distinct; exact float equality with the array cell is demanded (no arithmetic happens on the path)",
+    "prob(e) of tuples that are not events but resolve field-wise as table keys, `in`",
+    "probability-table rows are row-normalised distinct primes (one zero entry in the last row; one-event rows keep "
+    "distinct unnormalised entries) so every cell of a table is distinct; exact float equality with the array cell is "
+    "demanded (no arithmetic happens on the path)",
+    "PYTHONHASHSEED is fixed by ./check; StateActionTable.from_dict orders actions by a set, the reference takes the "
+    "order the table reports after checking it is a permutation of the action set",
 ]
 BUDGET = {'quick': 900, 'thorough': 3600}
 CHUNK = {'quick': 16, 'thorough': 16}
@@ -59,6 +70,9 @@ POOL = (0, 1, True, 1.0, 'a', ('a',), (0, 1), (0, 'a'), frozenset({0}), None)
 # equal-but-not-identical alternates of pool elements and two always-foreign scalars (keys only)
 ALTS = (False, 0.0, (False, True), (0, 1.0), (0.0, 'a'), frozenset({False}), 2, 'b')
 KEYPOOL = POOL + ALTS
+# always-foreign, unhashable, neither list nor tuple (bare and as a tuple component).  Deliberately not {0}: a set
+# equals frozenset({0}) under == while being unhashable, which no dict can express (the statement speaks of hashables)
+UNHASHABLE = ({5}, {0: 1})
 SL = slice(None)
 ELL = Ellipsis
 PRIMES = (2, 3, 5, 7, 11, 13, 17, 19, 23, 29, 31, 37, 41, 43, 47, 53, 59, 61, 67, 71, 73, 79, 83, 89, 97, 101,
@@ -82,6 +96,7 @@ def ordered_domains(pool, sizes):
 
 
 P7 = (0, 1, True, 'a', ('a',), (0, 1), (0, 'a'))          # the pool without 1.0, frozenset({0}), None
+P8 = (0, 1, True, 'a', ('a',), (0, 1), (0, 'a'), frozenset({0}))
 P6 = (0, 1, True, 'a', (0, 1), (0, 'a'))
 Q5 = (0, 1, True, 'a', (0, 1))
 T4 = (0, 'a', (0, 1), (0, 'a'))
@@ -93,10 +108,10 @@ def families(tier):
     if tier == 'quick':
         return [
             ('1 field, sizes 1-3, whole pool', [(POOL, (1, 2, 3))]),
-            ('2 fields, outer sizes 1-2 whole pool x inner sizes 1-2 over Q5', [(POOL, (1, 2)), (Q5, (1, 2))]),
+            ('2 fields, outer sizes 1-2 over P8 x inner sizes 1-2 over Q5', [(P8, (1, 2)), (Q5, (1, 2))]),
             ('2 fields, outer size 1 whole pool x inner sizes 1-2 whole pool', [(POOL, (1,)), (POOL, (1, 2))]),
             ('2 fields, outer size 3 over T4 x inner sizes 1,3 over (1,\'a\',0,True)', [(T4, (3,)), ((1, 'a', 0, True), (1, 3))]),
-            ('3 fields, sizes 1-2', [((0, 1, 'a', (0, 1), (0, 'a')), (1, 2)), ((0, 'a', (0, 1), True), (1, 2)),
+            ('3 fields, sizes 1-2', [(T4, (1, 2)), ((0, 'a', (0, 1), True), (1, 2)),
                                     ((1.0, 'a'), (1, 2))]),
             ('3 fields, 3x3x{1,3}', [((0, (0, 1), (0, 'a')), (3,)), ((1, 'a', (0, 1)), (3,)), (('a', 1.0, 0), (1, 3))]),
         ]
@@ -152,8 +167,6 @@ PROB = {'ProbabilityTable', 'TabularPolicy'}
 # constructor variants: only the core part of the key alphabet (element / tuple / chain / outer-key-list /
 # pool keys bare and substituted into full keys) is run on them
 LIGHT = {'TableF', 'StateTable.from_dict', 'StateActionTable.from_dict'}
-MDP = {'StateTable', 'StateTable.from_dict', 'StateActionTable', 'StateActionTable.from_dict',
-       'StateActionNextStateTable', 'TabularPolicy'}
 
 
 # ----------------------------------------------------------------------------------------------
@@ -415,8 +428,11 @@ def gen_programs(doms, tier):
     for a in POOL:
         add('poolkey', a)
     core_on[0] = False
-    for a in ALTS:
+    for a in ALTS + UNHASHABLE:
         add('poolkey', a)
+    for a in UNHASHABLE:
+        add('poolsub', tuple(d[0] for d in doms[:-1]) + (a,))
+        add('poolsub', (a,) + tuple(d[-1] for d in doms[1:]))
     for m in range(n, 0, -1):
         for i in range(m):
             rest = list(product(*(doms[:i] + doms[i + 1:m])))
@@ -519,9 +535,9 @@ def build_table(label, doms, vals):
         data = vals.astype(int).reshape(shape)
         return Table(data=data, table_index=TableIndex(field_names=tuple(f'f{i}' for i in range(len(doms))),
                                                        field_domains=tuple(tuple(d) for d in doms))), doms
-    if label == 'TableF':       # index given as Field objects with plain tuple / list domains (as test_TableIndex does)
+    if label == 'TableF':       # index given as Field objects with plain tuple domains (as test_TableIndex does)
         data = vals.astype(int).reshape(shape)
-        fields = [Field(f'g{i}', tuple(d) if i % 2 == 0 else tuple(d)) for i, d in enumerate(doms)]
+        fields = [Field(f'g{i}', tuple(d)) for i, d in enumerate(doms)]
         return Table(data=data, table_index=TableIndex(fields=fields)), doms
     data = vals.reshape(shape).copy()
     if label == 'ProbabilityTable':
@@ -663,7 +679,7 @@ class _RecordingRng:
         return [population[0]] * k
 
 
-def dist_mismatch(res, row, vals, full=True):
+def dist_mismatch(res, row, vals, full=True, obs=None):
     """`row` is a 1-field R that is a row of a probability table: res must be a distribution whose
     events and probabilities are exactly the row's domain and entries.  full=False: only type, support and
     prob() over the domain (used when the same row was already put through the whole battery)."""
@@ -711,6 +727,10 @@ def dist_mismatch(res, row, vals, full=True):
             # an event outside the row's domain: 0 or an error, never a cell
             if not isinstance(p, _Raised) and not eq(p, 0):
                 return f'prob({a!r}) of a foreign event gives {describe(p)}'
+        elif obs is not None and not isinstance(p, _Raised) and not eq(p, 0):
+            # a tuple that is not an event but resolves field-wise as a table key, e.g. prob((0,)) == prob(0):
+            # the table half of the statement makes t[(k,)] the cell of k, so this is only counted
+            obs.count('observed:prob_of_tuple_non_event_resolved_as_table_key')
     return None
 
 
@@ -762,7 +782,7 @@ def run_program(r, item, label, table, ref0, vals, tag, steps, refs, state):
                 first = rk not in state['rows']
                 state['rows'].add(rk)
                 r.count('rows_checked_as_distributions')
-                why = dist_mismatch(res, payload, vals, full=first)
+                why = dist_mismatch(res, payload, vals, full=first, obs=r)
             if why:
                 bad(r, item, f'{tag}:{"wrong_value" if not isinstance(res, _Raised) else "unexpected_error"}',
                     label, ref0, steps, si, why, describe_ref(payload, vals), res, state)
